@@ -241,7 +241,7 @@ func main() {
 		var clientHello bytes.Buffer
 		var answer *bytes.Reader
 		var cr [32]byte
-		var stream, msg, hm []byte
+		var stream, msg, hm, after []byte
 		expectOK := false
 		build := func() {
 			h := clientHello.Bytes()
@@ -345,7 +345,20 @@ func main() {
 				packet = packet[:rng.Intn(len(packet))]
 				expectOK = false
 			}
-			stream = append(packet, rng.Bytes(rng.Range(0, 12))...)
+			// the server speaks first: application records already in flight right behind the hello
+			// (TCP delivers them in the same read); one time in four stray bytes instead
+			stream = append([]byte{}, packet...)
+			if rng.Chance(1, 4) {
+				stream = append(stream, rng.Bytes(rng.Range(0, 12))...)
+				after = nil
+			} else {
+				after = []byte{}
+				for k := rng.Range(0, 3); k > 0; k-- {
+					d := rng.Bytes(rng.Range(0, 40))
+					after = append(after, d...)
+					stream = append(stream, record(0x17, [2]byte{3, 3}, d)...)
+				}
+			}
 			answer = bytes.NewReader(stream)
 		}
 		conn := rw{readerFunc(func(p []byte) (int, error) {
@@ -368,8 +381,31 @@ func main() {
 			return
 		}
 		restLen := answer.Len()
+		// after a successful handshake the connection is used: read what the server already sent
+		var got []byte
+		var ks []int
+		k2 := kOk
+		if err == nil && !p {
+			buf := make([]byte, 64)
+			for i := 0; i < 1000; i++ {
+				n := c.Rng.Range(1, len(buf))
+				ks = append(ks, n)
+				var m int
+				var rerr error
+				pp, _ := hx.Recover(func() { m, rerr = f.Read(buf[:n]) })
+				got = append(got, buf[:m]...)
+				if pp {
+					k2 = kPanic
+					break
+				}
+				if rerr != nil {
+					k2 = project(rerr)
+					break
+				}
+			}
+		}
 		c.Count(fmt.Sprintf("hello:%s:%s", hc.Scenario, kindNames[k]))
-		sh, ix := c.Case(fmt.Sprintf("(CHello %s %s %s %s %s %d %d)", tx.HB(cr[:]), tx.HB(secret), tx.HB(stream), tx.HB(msg), tx.HB(hm), k, restLen), hc)
+		sh, ix := c.Case(fmt.Sprintf("(CHello %s %s %s %s %s %d %d %s %s %d)", tx.HB(cr[:]), tx.HB(secret), tx.HB(stream), tx.HB(msg), tx.HB(hm), k, restLen, zlist(ks), tx.HB(got), k2), hc)
 		if verbose {
 			fmt.Printf("replay: server hello scenario %s extra=%d -> %s (expected accept=%v), %d bytes left\n", hc.Scenario, hc.Extra, kindNames[k], expectOK, restLen)
 		}
@@ -381,6 +417,9 @@ func main() {
 			c.Violate("hello-accepted-invalid", fmt.Sprintf("client accepted a server hello of scenario %q (extra handshake records %d)", hc.Scenario, hc.Extra), sh, ix, hc)
 		case err != nil && expectOK:
 			c.Violate("hello-rejected-valid", fmt.Sprintf("client rejected a valid server hello (extra handshake records %d): %v", hc.Extra, err), sh, ix, hc)
+		case err == nil && after != nil && (!bytes.Equal(got, after) || k2 != kEof):
+			c.Violate("server-data-after-hello-lost", fmt.Sprintf("the server sent %d application bytes right behind its hello; after the handshake the client read %d bytes (equal=%v) and then %s",
+				len(after), len(got), bytes.Equal(got, after), kindNames[k2]), sh, ix, hc)
 		}
 	}
 
